@@ -79,36 +79,40 @@ Definition run_out (r : name * list value) (c : chrom_out) : Prop :=
   co_name c = fst r /\ co_vals c = snd r /\ lookup (fst r) sizes = Some (co_len c)
   /\ check_chrom (co_len c) (snd r) = Ok tt.
 
-(* each run of the input becomes one chrom_out; when every chromosome forms ONE run, the ids are
-   0,1,2,... in the order of the runs *)
+(* each run of the input becomes one chrom_out.  Since /repo 6b10d42 a chromosome whose run reappears
+   is refused (E_CHROM_SPLIT), so ACCEPTANCE implies that every chromosome forms one run, none of
+   them was known before, and the ids are 0,1,2,... in the order of the runs *)
 Lemma process_runs_spec : forall rs prev ids0 ids outs,
   process_runs o sizes prev ids0 rs = Ok (ids, outs) ->
-  NoDup (map fst rs) -> (forall c, In c (map fst rs) -> lookup c ids0 = None) ->
-  ids = ids0 ++ number (Nlen ids0) (map fst rs)
+  NoDup (map fst rs) /\ (forall c, In c (map fst rs) -> lookup c ids0 = None)
+  /\ ids = ids0 ++ number (Nlen ids0) (map fst rs)
   /\ Forall2 run_out rs outs
   /\ map (fun c => (co_name c, co_id c)) outs = number (Nlen ids0) (map fst rs).
 Proof.
-  induction rs as [|[c vals] rest IH]; intros prev ids0 ids outs H Hnd Hfresh.
+  induction rs as [|[c vals] rest IH]; intros prev ids0 ids outs H.
   - cbn [process_runs] in H. apply Ok_inj in H. inversion H; subst. cbn [map number]. rewrite app_nil_r.
-    repeat split; constructor.
+    split; [constructor|]. split; [intros c []|]. repeat split; constructor.
   - cbn [process_runs] in H.
     destruct (negb _); [discriminate|].
     destruct (lookup c sizes) as [len|] eqn:El; [|discriminate].
-    assert (Hc : lookup c ids0 = None) by (apply Hfresh; left; reflexivity).
+    destruct (lookup c ids0) eqn:Hc; [discriminate|].
     unfold get_id in H. rewrite Hc in H.
     destruct (check_chrom len vals) as [[]| | |] eqn:Ec; cbn [rbind] in H; try discriminate.
     destruct (process_runs o sizes (Some c) (ids0 ++ [(c, Nlen ids0)]) rest) as [[ids'' outs']| | |] eqn:Er;
       cbn [rbind] in H; try discriminate.
     apply Ok_inj in H. inversion H; subst ids'' outs; clear H.
-    cbn [map fst] in Hnd. inversion Hnd as [|? ? Hnc Hnd']; subst.
-    destruct (IH _ _ _ _ Er Hnd') as (E1 & E2 & E3).
-    { intros c' Hin. rewrite lookup_app. rewrite (Hfresh c') by (right; exact Hin). cbn [lookup].
-      rewrite name_eqb_neq; [reflexivity|]. intros ->. contradiction. }
+    destruct (IH _ _ _ _ Er) as (Hnd' & Hfr' & E1 & E2 & E3).
+    assert (Hrest : forall c', In c' (map fst rest) -> lookup c' ids0 = None /\ c' <> c).
+    { intros c' Hin. specialize (Hfr' c' Hin). rewrite lookup_app in Hfr'.
+      destruct (lookup c' ids0); [discriminate|]. split; [reflexivity|]. intros ->.
+      cbn [lookup] in Hfr'. rewrite name_eqb_refl in Hfr'. discriminate. }
     rewrite Nlen_app in E1, E3. change (Nlen [(c, Nlen ids0)]) with 1 in E1, E3.
-    split; [|split].
-    + rewrite E1. cbn [map fst number]. now rewrite <- app_assoc.
+    cbn [map fst]. split; [|split; [|split; [|split]]].
+    + constructor; [|exact Hnd']. intros Hin. destruct (Hrest c Hin) as [_ Hne]. congruence.
+    + intros c' [<-|Hin]; [exact Hc|apply (Hrest c' Hin)].
+    + rewrite E1. cbn [number]. now rewrite <- app_assoc.
     + constructor; [|exact E2]. unfold run_out. cbn [co_name co_vals co_len fst snd]. auto.
-    + cbn [map fst number co_name co_id]. now rewrite E3.
+    + cbn [map number co_name co_id]. now rewrite E3.
 Qed.
 End Runs.
 
